@@ -12,6 +12,7 @@ from __future__ import annotations
 import random
 
 FIELD_PREFIXES = ["a", "b", "c", "x", "v", "len", "d", "fld", "_", "_"]
+PY_KEYWORDS = ["class", "from", "in", "is", "def", "pass", "lambda", "global", "with", "import", "None", "not", "yield", "del"]
 NESTED_TAGS = ["item", "hdr", "entry", "node"]
 INT_PACKED = ["int8", "uint8", "int16", "uint16", "int32", "uint32", "int64", "uint64"]
 INT_WIDE = ["int24", "uint24", "int48", "uint48", "int128", "uint128"]
@@ -41,6 +42,7 @@ def gen_swarm(rng: random.Random):
     on = {f: rng.random() < 0.55 for f in feats}
     on["eof"] = rng.random() < 0.15
     on["discard"] = rng.random() < 0.2
+    on["kwnames"] = rng.random() < 0.2
     return on
 
 
@@ -174,9 +176,13 @@ class DefGen:
         folded = ns is not None
         if ns is None:
             ns = {"p": rng.choice(FIELD_PREFIXES), "n": 0}
+            if sw.get("kwnames") and rng.random() < 0.5:
+                ns["kw"] = rng.sample(PY_KEYWORDS, len(PY_KEYWORDS))
 
         def nf():
             ns["n"] += 1
+            if ns.get("kw") and rng.random() < 0.3:
+                return ns["kw"].pop()  # a C identifier that happens to be a reserved word of Python
             return f"{ns['p']}{ns['n'] - 1}"
 
         if kind is None:
